@@ -45,6 +45,7 @@ RULES = [
     Rule('C01.R7', 'fraction denominators built from file fields are non-zero', 4),
     Rule('C01.R8', 'iterator holders are emptied with the track data; loop-stack level stays >= -1', 5),
     Rule('C01.R9', 'fixed-extent indexes in loader / converter code are in range', 40),
+    Rule('C01.R11', 'every %s argument of a formatted message is a NUL-terminated string', 8),
     Rule('C01.R10', 'every constant subscript of an event\'s data bytes is justified by the event type, by the statements that built the bytes, or by a size test', 35),
 ]
 EXPLANATION = ('Byte-budget abstract interpretation of every function that walks untrusted bytes: E1 over the structured body of the SMF event parser '
@@ -98,6 +99,7 @@ def analyse(facts, tier):
     obls += r6(facts)
     obls += r8(facts)
     obls += r10(facts)
+    obls += r11_percent_s(facts)
     res = e2prog.analyse_program(facts)
     obls += r7(facts, res)
     obls += r9(facts, res)
@@ -892,9 +894,15 @@ def antifreeze(fn, l):
                 for y in t:
                     find(y, guards)
         find(l.get('body'), [])
+        # the wait conjunct of the loop condition: rounds that satisfy it stay in the loop
+        loop_wait = [(f[1], show(f[3])) for f in lits if f[0] == 'cmp' and mentions(f[2], mem('wait'))]
         for gs in encl:
             for (g, pol) in gs:
                 fs = list(flat(literals(g, pol)))
+                for f in fs:
+                    if f[0] == 'cmp' and mentions(f[2], mem('wait')) and loop_wait and (f[1], show(f[3])) not in loop_wait:
+                        return False, ('the counter is decremented only when wait %s %s, but the loop goes on while wait %s %s: rounds in between make no progress and are never counted '
+                                       '(a zero-length loop under a tempo multiplier keeps the wait at a tiny positive value: Tick never returns)' % (f[1], show(f[3]), loop_wait[0][0], loop_wait[0][1]))
                 ok = all(f[0] == 'cmp' and f[1] in ('<=', '<') and mentions(f[2], mem('wait')) and (const_of(f[3]) is not None and const_of(f[3]) >= 0 or True) for f in fs)
                 if not ok:
                     return False, 'the counter is decremented only under `%s`, which a zero-delay event storm need not satisfy' % show(g)[:60]
@@ -1302,4 +1310,73 @@ def r10(facts):
                                why=why or 'the payload of this event comes from the file (a meta event or an internal subtype written as a raw meta event): nothing guarantees that byte %d exists' % k))
     if n < 35:
         raise build.AnalysisBroken('C01.R10: only %d event payload subscripts found' % n)
+    return out
+
+
+
+# ------------------------------------------------------------------------------------------------ R11 %s arguments
+def r11_percent_s(facts):
+    """payload bytes of meta events are not NUL-terminated: an argument printed with %s must be a string literal, the c_str() of a
+    std::string, or a local defined as one of those (not the data() of a byte vector / a raw payload pointer)"""
+    out = []
+    def terminated(fn, e, depth=0):
+        e = strip(e)
+        if e is None:
+            return False
+        k = e.get('k')
+        if k == 'StringLiteral' or (isinstance(e.get('c'), str)):
+            return True
+        if short(callee_name(e)) == 'c_str':
+            return True
+        if k == 'ConditionalOperator':
+            return terminated(fn, e.get('l'), depth) and terminated(fn, e.get('r'), depth)
+        if k == 'DeclRefExpr' and not e.get('parm') and depth < 3:
+            defs = []
+            for b, j, st in fn.cfg.stmts():
+                if st['s'].get('k') == 'DeclStmt':
+                    for v in st['s']['decls']:
+                        if v['id'] == e.get('id') and v.get('init') is not None:
+                            defs.append(v['init'])
+                for x in walk(st['s']):
+                    ap = assign_parts(x)
+                    if ap and strip(ap[0]).get('id') == e.get('id'):
+                        defs.append(ap[1])
+            return bool(defs) and all(terminated(fn, d, depth + 1) for d in defs)
+        if k == 'DeclRefExpr' and e.get('parm') and (e.get('t') or {}).get('pt', '').startswith('const char'):
+            return True         # a C string handed in by the caller
+        if k == 'MemberExpr' and (e.get('t') or {}).get('arr'):
+            return False
+        return False
+    n = 0
+    for fn in facts.all_fns():
+        if fn.relfile() not in FILES or fn.tree is None:
+            continue
+        for b, j, st in fn.cfg.stmts(conds=True):
+            for x in walk(st['s']):
+                if not ('callee' in x or 'callee_e' in x):
+                    continue
+                args = x.get('a', [])
+                fi = None
+                for i, a in enumerate(args):
+                    sa = strip(a)
+                    txt = sa.get('c') if isinstance(sa.get('c'), str) else (show(sa) if sa.get('k') == 'StringLiteral' else None)
+                    if txt is not None and '%' in txt:
+                        fi, fmt = i, txt
+                        break
+                if fi is None:
+                    continue
+                specs = re.findall(r'%[-+ #0]*\d*(\.\d+)?(?:hh|h|ll|l|z|j|t|L)?([a-zA-Z%])', fmt)
+                specs = [(pr, c) for pr, c in specs if c != '%']
+                for si, (pr, c) in enumerate(specs):
+                    if c != 's' or fi + 1 + si >= len(args):
+                        continue
+                    n += 1
+                    a = args[fi + 1 + si]
+                    # %.Ns reads at most N bytes and needs no terminator (the XMI branch marker is an 8-byte buffer printed with %.8s)
+                    ok = bool(pr) or terminated(fn, a)
+                    out.append(Obl('C01.R11', fn.name, '%%s <- %s' % show(a)[:40], st['loc'], 'discharged' if ok else 'finding',
+                                   why='terminated string' if ok else
+                                   '%s is printed with %%s but is not known to be NUL-terminated (payload bytes of an event): the formatter reads past the end of the buffer' % show(a)[:40]))
+    if n < 8:
+        raise build.AnalysisBroken('C01.R11: only %d %%s arguments found' % n)
     return out
